@@ -92,18 +92,24 @@ pub fn build_pretty_string_item(
 
     let (code_block, line_number_ofs) = if let Some(line_range) = line_range {
         let mut line_iter = removed.lines();
+        // The column holds the longest line number of the item, so that it stays aligned
+        // (and the markers stay in their columns) beyond line 9,999,999.
+        let number_width = line_range
+            .1
+            .to_string()
+            .len()
+            .max(LINE_COLUMN_WIDTH - 2);
         (
             &(line_range.0..=line_range.1)
                 .map(|i| {
-                    let line_column =
-                        format!("{:width$} {}", i, "|", width = LINE_COLUMN_WIDTH - 2);
+                    let line_column = format!("{:width$} {}", i, "|", width = number_width);
                     line_iter
                         .next()
                         .map(|l| format!("{line_column}{l}\n"))
                         .unwrap_or("".to_string())
                 })
                 .collect(),
-            LINE_COLUMN_WIDTH,
+            number_width + 2,
         )
     } else {
         (&removed, 0)
